@@ -376,6 +376,36 @@ def repeated_trails(rep):
                                    "mode": mode.name, "type": repr(tp), "input": repr(data),
                                    "sequence": "the earlier loads of this sequence failed at other places of the same layout"})
                     break
+    # dict keys that the key loader TRANSFORMS (date, enum, int under lax coercion): the trail element of a bad value is the
+    # raw input key, so that following the trail through the input reaches the value
+    import datetime as _dt
+    import enum as _enum
+
+    class Colour(_enum.Enum):
+        RED = "r"
+        GREEN = "g"
+    keyed = [
+        (Dict[_dt.date, List[int]], True, {"2024-02-03": [1, 2, "x"], "2024-02-04": [3]}, ("2024-02-03", 2)),
+        (Dict[Colour, int], True, {"r": 1, "g": "many"}, ("g",)),
+        (Dict[int, int], False, {"5": "x", "6": 2}, ("5",)),
+        (Dict[int, List[int]], False, {"7": [1, "y"]}, ("7", 1)),
+        (List[Dict[_dt.date, int]], True, [{"2024-02-03": 1}, {"2024-02-05": "z"}], (1, "2024-02-05")),
+    ]
+    for mode in (DebugTrail.FIRST, DebugTrail.ALL):
+        for tp, strict, data, path in keyed:
+            rt = Retort(debug_trail=mode, strict_coercion=strict)
+            n += 1
+            try:
+                rt.load(copy.deepcopy(data), tp)
+                rep.violation(f"transformed-keys:accepted:{mode.name}", "property-violated",
+                              {"what": "a planted ill-typed value under a transformed key is accepted", "input": repr(data), "mode": mode.name})
+                continue
+            except LoadError as e:
+                got = [tuple(t) for t, _ in leaves(e)]
+            if got != [path]:
+                rep.violation(f"transformed-keys:{mode.name}", "property-violated",
+                              {"what": f"the planted value sits at {list(path)} of the input (dict keys as given in the input), the reported "
+                                       f"trail(s) are {[list(t) for t in got]}", "mode": mode.name, "type": repr(tp), "input": repr(data)})
     return n
 
 
